@@ -32,7 +32,8 @@ MIN_JUDGED = {'quick': 120, 'thorough': 3000}
 REQUIRED_COUNTERS = ['obs:compute_totals-array', 'obs:compute_totals-dict', 'obs:jacvec-fwd', 'obs:jacvec-rev',
                      'obs:driver-totals', 'cell:mode=fwd', 'cell:mode=rev', 'cell:ln=direct-dense',
                      'cell:ln=direct-csc', 'cell:ln=direct-dict', 'cell:ln=krylov', 'cell:ln=generated',
-                     'obs:cyclic-model', 'obs:implicit-model', 'obs:indexed-model']
+                     'obs:cyclic-model', 'obs:implicit-model', 'obs:indexed-model', 'obs:rhs-cache-hit-parallel',
+                     'obs:rhs-cache-hit-antiparallel']
 ASSUMPTIONS = ['R (omv/ref/flatmodel.py) is exact: its analytic Jacobian is re-validated against complex step on '
                'every case (oracle error => case discarded)',
                'cases where any solver reports non-convergence, or cond(dF/du) >= 1e8, are not judged',
@@ -40,7 +41,7 @@ ASSUMPTIONS = ['R (omv/ref/flatmodel.py) is exact: its analytic Jacobian is re-v
 SHARD_TIMEOUT = {'quick': 1200, 'thorough': 5400}
 
 OPTS = dict(p_index=0.6, p_units=0.5, p_chain2=0.3, p_param=0.4, p_matfree=0.15, p_sparse=0.6, p_cycle=0.45,
-            p_implicit=0.35)
+            p_implicit=0.35, p_scaled_copy=0.35, p_rhs_checking=0.6)
 TOL = 2e-7
 
 
@@ -90,7 +91,10 @@ def run_case(case, acc):
     from omv.gen import models as G
     from omv.ref.flatmodel import FlatModel
     rng = random.Random(case['seed'])
-    spec = G.gen_spec(rng, dict(OPTS))
+    if case['seed'] % 8 == 3:
+        spec = G.gen_rhs_cache_spec(rng)     # structured family: linear-solution caching in reverse mode
+    else:
+        spec = G.gen_spec(rng, dict(OPTS))
     fm = FlatModel(spec)
     p = fm.p0()
     u, conv = fm.solve()
@@ -111,7 +115,7 @@ def run_case(case, acc):
     cyclic = any(nl not in ('runonce',) for nl, _ in tree_solvers(spec))
     has_imp = any(c['kind'] == 'imp' for c in spec['comps'])
     indexed = any(cn['chain'] for cn in spec['conns'])
-    nontriv = cyclic or has_imp or indexed
+    nontriv = cyclic or has_imp or indexed or spec['opts'].get('family') == 'rhs-cache'
     # configuration cells
     cells = [('generated', 'fwd'), ('generated', 'rev')]
     extra = ['direct-dict', 'direct-dense', 'direct-csc', 'krylov']
@@ -134,10 +138,10 @@ def run_case(case, acc):
             if tainted:
                 return 'nd-nonflat-single-index-model:' + what.split(':')[0]
             return '%s:ln=%s:mode=%s:%s' % (what, kind, mode, '+'.join(feats))
-        with FailureMonitor() as fmon, poison():
+        with FailureMonitor() as fmon, poison(), _RhsCacheMonitor(acc):
             try:
                 prob = G.build(sp)
-                declared = rng2.random() < 0.4
+                declared = rng2.random() < (0.7 if spec.get('force_of') else 0.4)
                 if declared:
                     _declare_dv(prob, spec, fm, rng2, ccase)
                 prob.setup(mode=mode)
@@ -254,6 +258,46 @@ def run_case(case, acc):
             acc.ok(fingerprint([feats, tree_solvers(sp), kind, mode]), nontrivial=nontriv,
                    sample={'seed': case['seed'], 'cell': [kind, mode], 'of': of, 'wrt': wrt,
                            'solvers': tree_solvers(sp), 'features': feats, 'cond': cond})
+
+
+class _RhsCacheMonitor:
+    """counts how often the linear-solution cache (rhs_checking) answered instead of a linear solve."""
+
+    def __init__(self, acc):
+        self.acc = acc
+
+    def __enter__(self):
+        from openmdao.solvers.linear.linear_rhs_checker import LinearRHSChecker
+        self._cls = LinearRHSChecker
+        self._orig = LinearRHSChecker.__dict__['get_solution']
+        mon = self
+
+        def get_solution(slf, rhs_arr, system):
+            ncache = len(slf._caches)
+            sol, is_zero = mon._orig(slf, rhs_arr, system)
+            mon.acc.count('obs:rhs-cache-lookups')
+            if sol is not None and np.any(rhs_arr != 0.0):
+                # classify the hit by the cached right-hand side it was answered from
+                kind = 'parallel'
+                for rhs_c, sol_c, _ in slf._caches:
+                    if np.array_equal(rhs_c, rhs_arr):
+                        kind = 'equal'
+                        break
+                    if np.array_equal(rhs_c, -rhs_arr):
+                        kind = 'negative'
+                        break
+                    if np.dot(rhs_c, rhs_arr) < 0 and kind == 'parallel' and \
+                            abs(abs(np.dot(rhs_c, rhs_arr)) - np.linalg.norm(rhs_c) * np.linalg.norm(rhs_arr)) <= \
+                            1e-12 * np.linalg.norm(rhs_c) * np.linalg.norm(rhs_arr):
+                        kind = 'antiparallel'
+                mon.acc.count('obs:rhs-cache-hit-' + kind)
+            return sol, is_zero
+        LinearRHSChecker.get_solution = get_solution
+        return self
+
+    def __exit__(self, *a):
+        self._cls.get_solution = self._orig
+        return False
 
 
 def _declare_dv(prob, spec, fm, rng, ccase):
